@@ -32,7 +32,10 @@ a = k * f * inner(grad(u), grad(v)) * dx + f * u * v * ds + jump(u) * jump(v) * 
 L = f * v * dx
 M = f * f * dx(degree=2)
 E = f * grad(f)
-forms = [a, L, M]
+m2 = inner(u, v) * dx
+c2 = inner(u, v) * dx
+L2 = f * v * dx
+forms = [a, L, M, m2, c2, L2]
 elements = [e]
 expressions = [(E, [[0.25, 0.25], [0.5, 0.1]])]
 '''
@@ -233,6 +236,36 @@ def run_cli(workdir: Path, args=()):
     return rc
 
 
+PAIR_REPLAY = ("#!/verif/.venv/bin/python\nimport sys\nsys.path[:0]=['/verif','/repo']\nfrom vlib import clicheck\nsys.exit(clicheck.replay_pair())\n")
+
+
+class _PrintChk:
+    """Minimal stand-in for Check used by the stand-alone replay: prints what it is told."""
+
+    def __init__(self):
+        self.n = 0
+        self.cases, self.extra = [], {}
+
+    def violation(self, key, what, src=None):
+        self.n += 1
+        print("VIOLATED:", key, "::", what)
+
+    def inconc(self, what):
+        print("inconclusive:", what)
+
+    def merge_queries(self, *a):
+        pass
+
+
+def replay_pair():
+    """Run the real `ffcx` main on the UFL file in a scratch directory and re-check the pair."""
+    c = _PrintChk()
+    pair_consistency(c)
+    same_as_jit(c, "quick")
+    print("REPRODUCED" if c.n else "not reproduced")
+    return 1 if c.n else 0
+
+
 def pair_consistency(chk):
     """Header/source pair written by the real main(): every extern of the header is defined once in
     the source, aliases point at the named objects, the source builds stand-alone."""
@@ -246,37 +279,43 @@ def pair_consistency(chk):
         for name, ctype, isptr in hdr:
             nfacts += 1
             if name not in m.globals:
-                chk.violation(f"cli:header-undefined:{name}", f"header declares `extern {ctype}{'*' if isptr else ''} {name}` but the source does not define it", None)
+                chk.violation(f"cli:header-undefined:{name}", f"header declares `extern {ctype}{'*' if isptr else ''} {name}` but the source does not define it", PAIR_REPLAY)
         defs = [n for n in m.order if n in m.globals]
         if len(defs) != len(set(defs)):
-            chk.violation("cli:duplicate-definition", "an object is defined twice in the source", None)
+            chk.violation("cli:duplicate-definition", "an object is defined twice in the source", PAIR_REPLAY)
         # aliases
         import re
 
         forms = {f.name: f for f in gen.form_descs(m)}
-        want_alias = {"form_cliform_a": 2, "form_cliform_L": 1, "form_cliform_M": 0}
+        # (m2 / c2 and L / L2 are distinct named forms that are structurally equal: each name needs its alias)
+        want_alias = {"form_cliform_a": 2, "form_cliform_L": 1, "form_cliform_M": 0, "form_cliform_m2": 2, "form_cliform_c2": 2, "form_cliform_L2": 1}
+        hdr_names = {n for n, _, _ in hdr}
+        for alias in list(want_alias) + ["expression_cliform_E"]:
+            nfacts += 1
+            if alias not in hdr_names:
+                chk.violation(f"cli:alias-not-declared:{alias}", f"the UFL file names this object but the header does not declare {alias}", PAIR_REPLAY)
         for alias, rank in want_alias.items():
             nfacts += 1
             tgt = m.globals.get(alias)
             tname = gen.refname(tgt)
             if tname not in forms:
-                chk.violation(f"cli:alias:{alias}", f"alias {alias} does not point at a form object ({tgt!r})", None)
+                chk.violation(f"cli:alias:{alias}", f"alias {alias} does not point at a form object ({tgt!r})", PAIR_REPLAY)
             elif forms[tname].rank != rank:
-                chk.violation(f"cli:alias-wrong-object:{alias}", f"alias {alias} points at {tname} of rank {forms[tname].rank}, the UFL file's object has rank {rank}", None)
+                chk.violation(f"cli:alias-wrong-object:{alias}", f"alias {alias} points at {tname} of rank {forms[tname].rank}, the UFL file's object has rank {rank}", PAIR_REPLAY)
         nfacts += 1
         exprs = gen.expression_descs(m)
         ea = gen.refname(m.globals.get("expression_cliform_E"))
         if ea not in exprs:
-            chk.violation("cli:alias:expression_cliform_E", f"expression alias missing or dangling ({ea})", None)
+            chk.violation("cli:alias:expression_cliform_E", f"expression alias missing or dangling ({ea})", PAIR_REPLAY)
         # stand-alone build against the real ufcx.h
         r = subprocess.run(["gcc", "-std=c17", "-Wall", "-Werror=implicit-function-declaration", "-c", "-I" + cfront.UFCX_DIR, str(d / "cliform.c"), "-o", str(d / "cliform.o")], capture_output=True, text=True)
         nfacts += 1
         if r.returncode:
-            chk.violation("cli:source-does-not-compile", f"gcc -c cliform.c failed: {r.stderr[-300:]}", None)
+            chk.violation("cli:source-does-not-compile", f"gcc -c cliform.c failed: {r.stderr[-300:]}", PAIR_REPLAY)
         r = subprocess.run(["gcc", "-std=c17", "-fsyntax-only", "-I" + cfront.UFCX_DIR, "-x", "c", "-"], input='#include "cliform.h"\n', capture_output=True, text=True, cwd=d)
         nfacts += 1
         if r.returncode:
-            chk.violation("cli:header-does-not-compile", f"header does not compile stand-alone: {r.stderr[-300:]}", None)
+            chk.violation("cli:header-does-not-compile", f"header does not compile stand-alone: {r.stderr[-300:]}", PAIR_REPLAY)
         chk.extra["pair_facts"] = nfacts
         chk.cases.append("pair:cliform")
         return c
@@ -298,15 +337,23 @@ def same_as_jit(chk, tier):
         forms = ns["forms"]
         objs, mod, (decl, impl) = jit.compile_forms(forms, cache_dir=d / "cache")
         m_jit = cfront.parse_c(impl)
-        fc = {f.rank: f for f in gen.form_descs(m_cli)}
-        fj = {f.rank: f for f in gen.form_descs(m_jit)}
+        import ffcx.naming
+
+        fc = {f.name: f for f in gen.form_descs(m_cli)}
+        fj = {f.name: f for f in gen.form_descs(m_jit)}
         ic, ij = gen.integral_descs(m_cli), gen.integral_descs(m_jit)
-        for form in forms:
+        varname = {id(v): k for k, v in ns.items() if not k.startswith("_")}
+        for i, form in enumerate(forms):
             fref = uflref.FormRef(form, "float64")
-            a, b = fc[fref.rank], fj[fref.rank]
+            nm = varname[id(form)]
+            a = fc.get(gen.refname(m_cli.globals.get(f"form_cliform_{nm}")))
+            b = fj.get(ffcx.naming.form_name(form, i, mod.__name__))
+            if a is None or b is None:
+                chk.violation(f"cli:form-missing:{nm}", f"form {nm} of the UFL file: {'no object behind form_cliform_' + nm + ' in the CLI source' if a is None else 'JIT module lacks the form object'}", PAIR_REPLAY)
+                continue
             ea, eb = a.entries(), b.entries()
             if [(t, i) for t, i, _ in ea] != [(t, i) for t, i, _ in eb]:
-                chk.violation(f"cli:dispatch-differs:rank{fref.rank}", f"CLI lists {[(t, i) for t, i, _ in ea]}, JIT lists {[(t, i) for t, i, _ in eb]}", None)
+                chk.violation(f"cli:dispatch-differs:{nm}", f"CLI lists {[(t, i) for t, i, _ in ea]}, JIT lists {[(t, i) for t, i, _ in eb]}", PAIR_REPLAY)
                 continue
             for (it, sid, ka), (_, _, kb) in zip(ea, eb):
                 itd = next(x for x in fref.fd.integral_data if x.integral_type == it and sid in sid_list(x))
@@ -317,12 +364,12 @@ def same_as_jit(chk, tier):
                 inp = uflref.Inputs(ctx, nw, nc, nx, False)
                 ra = ksym.run_kernel(kerna, ctx, inp, nA, entities=ents, perms=(0, 1))
                 rb = ksym.run_kernel(kernb, ctx, inp, nA, entities=ents, perms=(0, 1))
-                chk.cases.append(f"cli-vs-jit:rank{fref.rank}:{it}")
+                chk.cases.append(f"cli-vs-jit:{nm}:{it}")
                 for i, (x, y) in enumerate(zip(ra.A, rb.A)):
                     v, model = eqcheck.qident(ctx, x - y, stats)
                     if v == "sat":
-                        chk.violation(f"cli:kernel-differs:rank{fref.rank}:{it}:A[{i}]", f"CLI kernel {kerna.name} and JIT kernel {kernb.name} differ in A[{i}] as polynomials of the inputs", None)
+                        chk.violation(f"cli:kernel-differs:{nm}:{it}:A[{i}]", f"CLI kernel {kerna.name} and JIT kernel {kernb.name} differ in A[{i}] as polynomials of the inputs", PAIR_REPLAY)
                         break
                     elif v != "unsat":
-                        chk.inconc(f"cli-vs-jit rank{fref.rank} {it} A[{i}]: {v}")
+                        chk.inconc(f"cli-vs-jit {nm} {it} A[{i}]: {v}")
     chk.merge_queries(stats.q, stats.secs)
